@@ -15,7 +15,8 @@ RUNNER_LOOP = (RUN, 'runner.Runner.run_tests')
 FUNCTIONS = {
     'C01': LAYER_FNS + [RUNNER_LOOP],
     'C02': [(L, 'runner.handle_layer_failure'), (L, 'runner.tear_down_unneeded'), (L, 'runner.run_layer'),
-            RUN_TESTS, RUNNER_LOOP],
+            RUN_TESTS, RUNNER_LOOP, ('runner_spawn', 'runner.spawn_layer_in_subprocess')],
+    'C07': [('runner_spawn', 'runner.spawn_layer_in_subprocess'), ('process_c07', 'process.SubProcess.report')],
     'C04': [(L, 'runner.setup_layer'), (L, 'runner.tear_down_unneeded'), (L, 'runner.run_layer'),
             (L, 'runner.handle_layer_failure'), (RR, TR + '_restoreStdStreams'), (RR, TR + 'startTest'),
             (RR, TR + 'stopTest')] + EVENTS + [PROTOCOL, RUN_TESTS, RUNNER_LOOP],
@@ -28,6 +29,9 @@ FUNCTIONS = {
     'C16': [(RR, TR + m) for m in ('addError', 'addFailure', 'addUnexpectedSuccess', 'addSubTest')]
            + [PROTOCOL, RUN_TESTS, RUNNER_LOOP],
     'C19': [(RR, TR + 'startTest'), (RR, TR + 'addSkip'), (RR, TR + 'stopTest')],
+    'C09': [('find_c09', 'find.tests_from_suite'), ('find_c15', 'options.get_options')],
+    'C11': [('shuffle_c11', 'shuffle.Shuffle.global_setup')],
+    'C15': [('find_c15', 'find.remove_stale_bytecode'), ('find_c15', 'options.get_options')],
 }
 
 NATIVE = {p: p.lower() for p in ['C%02d' % i for i in range(1, 21)]}
@@ -58,9 +62,10 @@ MANIFEST = {
                 "failures or errors non-empty) and, outside --post-mortem, ghost count of bad outcomes == growth of "
                 "failures+errors, through the growth contracts of handle_layer_failure (+1), tear_down_unneeded "
                 "(NotImplementedError: +0, other exceptions: +1), run_layer (set-up failure: +1) and run_tests (the unittest "
-                "protocol harness: +1 per addError/addFailure/addUnexpectedSuccess/addSubTest(exc)). The subprocess part "
-                "(spawn_layer_in_subprocess/resume_tests) is an assumed contract here and bounded by the native oracle "
-                "(fake children, real -j runs), labelled bounded.",
+                "protocol harness: +1 per addError/addFailure/addUnexpectedSuccess/addSubTest(exc)); "
+                "spawn_layer_in_subprocess records exactly one error for a child that cannot be started / dies / reports "
+                "incompletely, and exactly the reported names otherwise (for arbitrary child output). resume_tests (the "
+                "scheduler) is an assumed contract here, bounded by the native oracle (fake children, real -j runs).",
         'note': COMMON_NOTE + "Not decided here: OS exit status; child report transfer (see C07); --post-mortem runs end "
                 "with EndRun and return 'passed' by upstream's documented behaviour (testrunner-debugging.rst). Known "
                 "findings: header-like / unterminated stderr noise (unframed child protocol).",
@@ -83,6 +88,19 @@ MANIFEST = {
                 "Python >= 3.12.1.",
         'note': COMMON_NOTE + "Assumed: per-test hooks do not raise (a raising hook aborts the run by design); that "
                 "startTest precedes the test's own setUp and stopTest follows its tearDown is the unittest protocol.",
+    },
+    'C07': {
+        'text': "Proof about the parent for ARBITRARY child output: spawn_layer_in_subprocess (Popen, pipes, reader thread "
+                "abstract) sets result.done on every path, lets no exception escape (it is a thread target), records exactly "
+                "one error and no names when the child could not be started, delivered nothing, sent no header-like line, or a "
+                "report that is cut short or undecodable anywhere (never partial data), and transfers count, failure names "
+                "and error names exactly and in order when the lines after the first header-like line are complete; the child "
+                "is re-invoked with --resume-layer, the parent's defaults and original arguments (call-site obligations on the "
+                "argument list). Child side: SubProcess.report writes header(ran, #failures, #errors) and one line per entry, "
+                "nothing else.",
+        'note': COMMON_NOTE + "Not decided: termination (liveness, OS), that a dead child's pipes reach EOF. Assumed: "
+                "header-likeness / decoding as predicates of a line. Known findings (unframed protocol): header-like or "
+                "unterminated stderr noise, '\\r' in names, truncation inside the last name.",
     },
     'C08': {
         'text': "Proof: build_filtering_func returns a closure whose value equals the predicate of the statement for every "
@@ -115,6 +133,37 @@ MANIFEST = {
                 "call recorded a bad outcome (outer invariant over --repeat iterations); call-site obligation in "
                 "Runner.run_tests: no run_layer after the lists grew; final tear-down and verdict on every path.",
         'note': COMMON_NOTE + "Assumed: unittest protocol; TestResult.stop sets shouldStop. --post-mortem is outside the claim.",
+    },
+    'C09': {
+        'text': "Proof: tests_from_suite yields exactly FLAT(suite) -- a specification function written from the statement "
+                "(a test is yielded with its nearest layer iff its nearest level is <= --at-level, any level when at-level <= 0, "
+                "or == --only-level when given, and the --test filter accepts it; a suite is the concatenation of its children, "
+                "which inherit the suite's nearest declaration; defaults come from the caller) -- by structural induction over "
+                "arbitrarily deep suite trees (decreases: tree height; loop invariant: yielded so far == FLAT of the children "
+                "visited). The tail of get_options is verified as a fragment: --all sets at_level to sys.maxsize, -u -f cancel "
+                "each other, --usecompiled implies --keepbytecode.",
+        'note': COMMON_NOTE + "Assumed: getattr/str/isinstance are pure; levels <= sys.maxsize (A-WORD). The unit-layer "
+                "keep/drop decision of Filter.global_setup is covered by the bounded oracle only.",
+    },
+    'C11': {
+        'text': "Proof: Shuffle.global_setup replaces the suite of each registered layer by a suite over a permutation of that "
+                "layer's own tests (ghost permutation witness updated at the swap; index floor(r*(i+1)) proved in range for "
+                "0 <= r < 1 over the reals), never adds/removes layer names, touches only the current key; syntactic "
+                "obligations on the real source: it reads only the seed, the registered tests and the random stream; features "
+                "are configured Find < Shuffle < SubProcess < Filter < Listing; the seed is reported and handed to children.",
+        'note': COMMON_NOTE + "Assumed: A-FLOAT (floats as reals), random.Random(seed).random() is a function of seed and "
+                "position (stdlib guarantee); sorted(items) is a permutation of the items. Reproducibility across real "
+                "processes is bounded (native oracle).",
+    },
+    'C15': {
+        'text': "Proof: call-site obligations at os.unlink (the file is an entry of the visited directory's file list, its "
+                "name ends with .pyc/.pyo, the same-named .py is not in that list, the path is join(dirname, file), "
+                "--keepbytecode is off), completeness and soundness invariants per directory (every orphan among the files "
+                "seen is unlinked; only such orphans are), nothing unlinked under --keepbytecode; string-level leaf lemmas "
+                "(file[-4:] == '.pyc' <=> endswith; file[:-1] is the same-named .py) proved in the z3 sequence theory; "
+                "get_options tail: --usecompiled implies --keepbytecode.",
+        'note': COMMON_NOTE + "Assumed: walk_with_symlinks/os.walk semantics incl. in-place pruning of __pycache__ and ignored "
+                "directories; os.unlink removes exactly its argument.",
     },
     'C19': {
         'text': "Proof of the report computation: at the test_threads call site new_threads is non-empty and contains "
